@@ -142,7 +142,8 @@ def chain_case(p, m, S, cid, extra=None):
     try:
         # the stable set in the three forms the signature names: list, tuple, set
         form = (list, tuple, set)[(len(m) + len(S)) % 3]
-        ch = p.build_decay_chains(m, stable_particles=form(S))
+        # ... by keyword or, as the signature allows, as the second positional argument
+        ch = p.build_decay_chains(m, stable_particles=form(S)) if (len(m) + 2 * len(S)) % 4 else p.build_decay_chains(m, form(S))
         res = {"notfound": False, "entries": proj_chain(ch[m]) if list(ch.keys()) == [m] else [{"bf": "?key"}]}
     except DecayNotFound:
         res = {"notfound": True, "entries": []}
